@@ -56,7 +56,7 @@ ASSUMPTIONS = [
     "DetectorConvergenceCondition: samples-per-period and prev_periods enumerated (spp in {1,2,3,5}, prev_periods in {1,2,4}); step counts, bounds, threshold, detector trace symbolic",
     "the loop primitive stops at the first step at which its cond_fun is false (assumed contract, see STUBS)",
 ]
-MIN_OBLIGATIONS = {"quick": 150, "thorough": 150}
+MIN_OBLIGATIONS = {"quick": 250, "thorough": 300}
 LEVEL_TEXT = (
     "Deductive proof for all step counters, total step counts, min/max settings, thresholds and traces of the continue-predicate contracts (a)-(c) of the real "
     "TimeStepCondition / EnergyThresholdCondition / DetectorConvergenceCondition, and of the loop wiring of run_fdtd(stopping_condition=...) (guard = the set-up condition, "
@@ -67,6 +67,11 @@ EXPLANATION = "DetectorConvergenceCondition.__call__ ignores max_steps: obligati
 
 
 # ---------------------------------------------------------------------------------------
+
+
+from vc.core import PathAbort, Undecided  # noqa: E402
+
+_ENGINE_EXC = (TL.Unsupported, PathAbort, Undecided)
 
 
 class _JnpPlus(types.ModuleType):
@@ -98,6 +103,7 @@ class _cond_env:
         self.SC = SC
         self.energies = []
         self.cond_results = []
+        self.tests = []
         d = SC.__dict__
         self.saved = {k: d[k] for k in ("compute_energy", "jnp", "jax")}
 
@@ -118,7 +124,11 @@ class _cond_env:
         def cond(pred, tf, ff, *ops, **kw):
             if "operand" in kw:  # legacy keyword form of jax.lax.cond: the branches receive it positionally
                 ops = (kw.pop("operand"),)
-            r = base_jax.lax.cond(pred, tf, ff, *ops, **kw)
+            # the convergence test itself (true branch), evaluated once and independently of the gate,
+            # is what the documentation calls "converged"; the gated value is what the code uses
+            test = tf(*ops)
+            env.tests.append(test)
+            r = base_jax.lax.cond(pred, lambda *a: test, ff, *ops, **kw)
             env.cond_results.append(r)
             return r
 
@@ -281,10 +291,10 @@ def _kappa_detector(spp, prev, defaults):
             c.assume(le.z if isinstance(le, SymBool) else bool(le))
             c.cover("pre")
             k = TL.as_cond(cond(state, cfg, objs))
-            ok = c.prove("DetectorConvergence/one_convergence_test", len(env.cond_results) == 1)
+            ok = c.prove("DetectorConvergence/one_convergence_test", len(env.tests) == 1)
             if not ok:
                 return
-            conv = TL.as_cond(env.cond_results[0])
+            conv = TL.as_cond(env.tests[0])
             _kappa_obligations(c, f"DetectorConvergence(spp={spp},prev={prev},{'defaults' if defaults else 'user_bounds'})", k, t, cond.min_steps, cond.max_steps, T, conv)
 
     return body
@@ -337,7 +347,13 @@ def _loop_wiring(c, inp):
     with P5.sym_total_steps(T), TL.LoopHarness() as L:
         res_p, calls_p = P5._run(L, A0, objs, cfg, key)
         g_p = P5._post_run(c, "plain_run", res_p, calls_p, A0, T, cfg, objs, key)
-        res, calls = P5._run(L, A0, objs, cfg, key, stopping_condition=user_cond)
+        try:
+            res, calls = P5._run(L, A0, objs, cfg, key, stopping_condition=user_cond)
+        except _ENGINE_EXC:
+            raise
+        except Exception as e:  # noqa: BLE001
+            c.prove(f"stopped_run/no_exception_without_gradient_config({type(e).__name__})", False)
+            return
         ok = c.prove("stopped_run/one_loop", len(calls) == 1 and isinstance(res, tuple) and len(res) == 2)
         if not ok or g_p is None:
             return
@@ -368,7 +384,7 @@ def _loop_wiring(c, inp):
         raised = None
         try:
             P5._run(L, A0, objs, gcfg, key, stopping_condition=user_cond)
-        except TL.Unsupported:
+        except _ENGINE_EXC:
             raise
         except Exception as e:  # noqa: BLE001
             raised = e
@@ -400,6 +416,11 @@ def _end_to_end(kind, spp=2, prev=1, defaults=False):
                 res, calls = P5._run(L, A0, objs, cfg, key, stopping_condition=cond0)
             except ValueError:
                 return  # rejected input: judged in the kappa tasks
+            except _ENGINE_EXC:
+                raise
+            except Exception as e:  # noqa: BLE001
+                c.prove(f"run/{name}/no_exception({type(e).__name__})", False)
+                return
         ok = c.prove(f"run/{name}/one_loop", len(calls) == 1)
         if not ok:
             return
